@@ -46,7 +46,8 @@ Record c08_case := mkCase {
   c_in_after : obj;                 (* the input graph re-read after remap *)
   c_query : vpred;
   c_research : res (list rentry);   (* research(root, query), get_path(root, path) for every entry *)
-  c_in_final : obj
+  c_in_final : obj;
+  c_deepcopy : option obj           (* spec validation: copy.deepcopy(root) (python stdlib, independent of boltons) *)
 }.
 
 Definition vcall_eqb (a b : vcall) : bool :=
@@ -84,8 +85,23 @@ Definition model_research (c : c08_case) : res (list rentry) :=
   | Raise e => Raise e
   end.
 
+(* The Spec itself is validated against an independent implementation: for the
+   default visit, spec_remap must be (isomorphic to) what copy.deepcopy returns -
+   cycles through tuples included.  A failure here is a defect of the Spec or of
+   canon, not of boltons; it is folded into `agree` so that it is loud. *)
+Definition spec_valid (c : c08_case) : bool :=
+  match c_deepcopy c with
+  | None => true
+  | Some d =>
+      match c_in c with
+      | ONode _ _ _ => res_eqb obj_eqb (outcome_result (spec_remap None (c_in c))) (canon_res (Ok d))
+      | _ => true
+      end
+  end.
+
 Definition agree (c : c08_case) : bool :=
   let m := model_remap c in
+  spec_valid c &&
   res_eqb obj_eqb (outcome_result m) (canon_res (c_out c))
   && list_eqb vcall_eqb (outcome_calls m) (c_calls c)
   && res_eqb (list_eqb rentry_eqb) (model_research c) (c_research c).
